@@ -15,7 +15,8 @@ from typing import Any, Dict, List, Optional, Tuple
 
 from ..core import Ctx, REPO
 
-THEOREMS = ["Schedule.c01_process_total", "Schedule.c01_one_bad_file", "Schedule.c01_exit_status"]
+THEOREMS = ["Schedule.c01_process_total", "Schedule.c01_one_bad_file", "Schedule.c01_exit_status",
+            "Docstring.c01_render_run_total", "Docstring.c01_errors_kept", "Docstring.c01_failure_sets_exit_status"]
 RULE = ("source trees: (i) modules assembled from a catalogue of unusual but valid constructs (star bases, odd __all__, nested "
         "scopes in control flow, match, PEP 695 generics, decorators with calls, walrus, f-strings, lambda defaults ...) "
         "nested at random; (ii) line / token mutations of pydoctor's own sources, its test packages and stdlib modules "
@@ -409,6 +410,30 @@ def run(ctx: Ctx) -> None:
         ctx.count("outcome:" + str(r["outcome"]).split(":")[0] + (":" + str(r["outcome"]).split(":")[1] if str(r["outcome"]).startswith("exit") else ""))
         ctx.count("unparsable-files", len(r.get("bad") or []))
         judge(ctx, t, r)
+    # the docstring wrappers (parse_docstring / safe_to_stan / format_* of epydoc2stan): the Docstring model that the
+    # run-level theorems are about is tied to the real functions by fault injection (C08's stream, run here too so that
+    # this check stands on its own): every stage is made to return / raise as the case says, model and code compared,
+    # and no call may let an exception out
+    from . import c08
+    w = c08.World()
+    cases = list(c08.exhaustive_fault_cases(True))
+    cases += [c08.random_fault_case(ctx.rng) for _ in range(150 if ctx.quick else 3000)]
+    freqs, fimpls, fpay = [], [], []
+    with c08.instrument(w), c08.fault_patches(w):
+        for sp in cases:
+            line, trace = c08.run_fault_case(w, sp)
+            freqs.append(c08.request_of(sp))
+            fimpls.append(line)
+            fpay.append({"kind": "fault", "spec": c08.spec_json(sp)})
+            ctx.count("wrapper-fault-cases")
+            for ent in trace:
+                if ent.get("hang"):
+                    ctx.fail("wrapper-hang", {"kind": "fault", "spec": c08.spec_json(sp)}, "a wrapped docstring stage hung")
+                elif ent.get("raised") is not None and ent["op"] != "x":
+                    ctx.count("wrapper-propagated")
+                    ctx.fail("wrapper-propagates:" + type(ent["raised"]).__name__, {"kind": "fault", "spec": c08.spec_json(sp)},
+                             f"epydoc2stan entry point {ent['op']} let {type(ent['raised']).__name__} out: {ent['raised']}")
+    ctx.compare("fault-injection~Docstring.run", freqs, fimpls, fpay)
     # exit-status arithmetic: model vs the documented table (tiny exhaustive space) — the real main()
     # is exercised above; here the model function is compared with the same decision written from the manual
     reqs, impls = [], []
@@ -421,7 +446,10 @@ def run(ctx: Ctx) -> None:
 
 
 def replay(ctx: Ctx, obj) -> int:
-    inp = obj.get("input") or {}
+    inp = obj.get("input") or obj.get("request") or {}
+    if isinstance(inp, dict) and inp.get("kind") == "fault":
+        from . import c08
+        return c08.replay(ctx, obj)
     if "files" not in inp:
         print(obj)
         return 0
